@@ -8,10 +8,12 @@ specification: Spec/Bmp.lean (standard BMP reader, meaning of PDF samples).
 import PdfVerif.Lemmas.Bmp
 import PdfVerif.Lemmas.ImageName
 import PdfVerif.Lemmas.Inline
+import PdfVerif.Lemmas.InlineDict
 
 namespace PdfVerif.Props.C18
 open PdfVerif PdfVerif.Image PdfVerif.Bmp PdfVerif.ImageName PdfVerif.Inline
 open PdfVerif.BmpLemmas PdfVerif.ImageNameLemmas PdfVerif.InlineLemmas PdfVerif.Gen.ImageGen
+open PdfVerif.InlineDict PdfVerif.InlineDictLemmas
 
 /-! ## Exported bitmaps decode to the stored samples -/
 
@@ -37,7 +39,7 @@ def FitsBmp (k : Kind) (w h : Nat) : Prop :=
 theorem C18_bmp_rt (k : Kind) (inl : Bool) (w h : Nat) (data name : Bytes) (existing : List Bytes)
     (filters : List Flt) (hl : ∀ f ∈ filters, Lossless f)
     (hw1 : 1 ≤ w) (hh1 : 1 ≤ h) (hfit : FitsBmp k w h) (hlen : data.length = h * rowBytes k w) :
-    ∃ nm file, exportImage ⟨filters, csOfKind k inl, bpcOfKind k, w, h, name, data⟩ existing = .ok (nm, file) ∧
+    ∃ nm file, exportImage ⟨filters, csOfKind k inl, false, bpcOfKind k, w, h, name, data⟩ existing = .ok (nm, file) ∧
       nm ∉ existing ∧ (∃ stem, nm = stem ++ extBmp) ∧
       readBMP file = some (w, h, samplesRGB k w h data) := by
   obtain ⟨hdct, hjpx, hjb⟩ := lossless_getLast filters hl
@@ -48,10 +50,12 @@ theorem C18_bmp_rt (k : Kind) (inl : Bool) (w h : Nat) (data name : Bytes) (exis
   refine ⟨nm, file, ?_, hfresh, ?_, hread⟩
   · unfold exportImage
     simp only [hdct, hjpx, hjb, if_false]
-    have h3 : w * 3 = 3 * w := Nat.mul_comm w 3
     cases k <;> cases inl <;>
       simp only [csOfKind, bpcOfKind, bitsOfKind, rowBytes, isRGB, isGray] at hsave ⊢ <;>
-      simp [withName, hnm, hsave, h3]
+      simp only [(bmpArgs_bit1 w).1, (bmpArgs_bit1 w).2, (bmpArgs_rgb w).1, (bmpArgs_rgb w).2, (bmpArgs_gray w).1,
+        (bmpArgs_gray w).2] <;>
+      simp (config := { decide := true }) only [if_true, if_false] <;>
+      exact withName_ok _ _ _ _ _ _ hnm hsave
   · rw [hj]; exact candidate_suffix name extBmp j
 
 /-- The row-wise reading of the samples used above is the pixel-by-pixel one: pixel (r, c) of a
@@ -65,7 +69,7 @@ theorem C18_samples_pixelwise (k : Kind) (w h : Nat) (data : Bytes) (hlen : data
 theorem C18_bmp_rt_pixelwise (k : Kind) (inl : Bool) (w h : Nat) (data name : Bytes) (existing : List Bytes)
     (filters : List Flt) (hl : ∀ f ∈ filters, Lossless f)
     (hw1 : 1 ≤ w) (hh1 : 1 ≤ h) (hfit : FitsBmp k w h) (hlen : data.length = h * rowBytes k w) :
-    ∃ nm file, exportImage ⟨filters, csOfKind k inl, bpcOfKind k, w, h, name, data⟩ existing = .ok (nm, file) ∧
+    ∃ nm file, exportImage ⟨filters, csOfKind k inl, false, bpcOfKind k, w, h, name, data⟩ existing = .ok (nm, file) ∧
       readBMP file = some (w, h, samplesRGBIdx k w h data) := by
   obtain ⟨nm, file, h1, _, _, h4⟩ := C18_bmp_rt k inl w h data name existing filters hl hw1 hh1 hfit hlen
   exact ⟨nm, file, h1, by rw [← samplesRGB_eq_idx k w h data hlen]; exact h4⟩
@@ -76,7 +80,7 @@ example : FitsBmp .rgb8 3 2 ∧ (List.replicate 18 (7 : UInt8)).length = 2 * row
   refine ⟨⟨by decide, by decide, by decide⟩, by decide⟩
 
 example :
-    (match exportImage ⟨[.flate], .rgb, 8, 3, 2, [73, 109, 48], (List.range 18).map UInt8.ofNat⟩ [[73, 109, 48, 46, 98, 109, 112]] with
+    (match exportImage ⟨[.flate], .rgb, false, 8, 3, 2, [73, 109, 48], (List.range 18).map UInt8.ofNat⟩ [[73, 109, 48, 46, 98, 109, 112]] with
      | .ok (nm, file) => (nm, readBMP file)
      | .error _ => ([], none)) =
     ([73, 109, 48, 46, 48, 46, 98, 109, 112], some (3, 2, (List.range 18).map UInt8.ofNat)) := by
@@ -96,7 +100,7 @@ theorem C18_bmp_pinned_cex :
 /-- **jpeg_bytes.** An image whose last filter is DCTDecode (gray or RGB; CMYK needs Pillow) is
     written unchanged — the file content is `stream.get_data()` — to a new `*.jpg` file. -/
 theorem C18_jpeg_bytes (im : ImgIn) (existing : List Bytes) (hd : im.filters.getLast? = some .dct)
-    (hcs : im.cs ≠ .cmyk) :
+    (hcs : im.cmykMember = false) :
     ∃ nm, exportImage im existing = .ok (nm, im.data) ∧ nm ∉ existing ∧ ∃ stem, nm = stem ++ extJpeg := by
   have hsome := uniqueName_isSome existing im.name extJpeg
   obtain ⟨nm, hnm⟩ := Option.isSome_iff_exists.mp hsome
@@ -106,7 +110,32 @@ theorem C18_jpeg_bytes (im : ImgIn) (existing : List Bytes) (hd : im.filters.get
     simp [hd, hcs, withName, hnm]
   · rw [hj]; exact candidate_suffix im.name extJpeg j
 
-example : ([Flt.a85, Flt.dct] : List Flt).getLast? = some .dct ∧ CS.rgb ≠ CS.cmyk := by decide
+example : ([Flt.a85, Flt.dct] : List Flt).getLast? = some .dct := by decide
+
+/-! ## Kinds the property does not name: 2/4/16-bit samples, CMYK, Lab, … -/
+
+/-- **raw_dump.** An image that is neither DCT/JPX/JBIG2 nor one of the bitmap kinds, and not a
+    single-Flate stream (which needs Pillow), is dumped unchanged — file content = `get_data()` — under
+    a new name `<name>[.k].<bits>.<w>x<h>.img`; nothing is lost and no existing file is touched. -/
+theorem C18_raw_dump (im : ImgIn) (existing : List Bytes)
+    (h1 : im.filters.getLast? ≠ some .dct) (h2 : im.filters.getLast? ≠ some .jpx)
+    (h3 : im.filters.contains .jbig2 = false) (hb : im.bits ≠ 1)
+    (hc : ¬ (im.bits = 8 ∧ (isRGB im.cs = true ∨ isGray im.cs = true))) (hf : im.filters ≠ [.flate]) :
+    ∃ nm, exportImage im existing = .ok (nm, im.data) ∧ nm ∉ existing ∧
+      ∃ stem, nm = stem ++ rawExt im.bits im.w im.h := by
+  have hsome := uniqueName_isSome existing im.name (rawExt im.bits im.w im.h)
+  obtain ⟨nm, hnm⟩ := Option.isSome_iff_exists.mp hsome
+  obtain ⟨hfresh, j, _, hj⟩ := uniqueName_fresh existing im.name _ nm hnm
+  refine ⟨nm, ?_, hfresh, ?_⟩
+  · unfold exportImage
+    have hc1 : ¬ (im.bits = 8 ∧ isRGB im.cs = true) := fun h => hc ⟨h.1, Or.inl h.2⟩
+    have hc2 : ¬ (im.bits = 8 ∧ isGray im.cs = true) := fun h => hc ⟨h.1, Or.inr h.2⟩
+    rw [if_neg h1, if_neg h2, if_neg (by simpa using h3), if_neg hb, if_neg hc1, if_neg hc2, if_neg hf]
+    exact withName_ok _ _ _ _ _ _ hnm rfl
+  · rw [hj]; exact candidate_suffix im.name _ j
+
+/-- Non-vacuity: a 4-bit CMYK image through ASCII85. -/
+example : ([Flt.a85] : List Flt).getLast? ≠ some .dct ∧ (4 : Nat) ≠ 1 ∧ ([Flt.a85] : List Flt) ≠ [.flate] := by decide
 
 /-! ## Distinct images get distinct file names -/
 
@@ -162,116 +191,60 @@ theorem C18_unique_name_terminates (existing : List Bytes) (name ext : Bytes) :
 
 /-- Non-vacuity: three images called `Im0` give three different names. -/
 example :
-    (exportSeq [⟨[], .gray, 8, 1, 1, [73, 109, 48], [1]⟩, ⟨[.flate], .gray, 8, 1, 1, [73, 109, 48], [2]⟩,
-                ⟨[.dct], .gray, 8, 1, 1, [73, 109, 48], [3]⟩] []).map (·.1) =
+    (exportSeq [⟨[], .gray, false, 8, 1, 1, [73, 109, 48], [1]⟩, ⟨[.flate], .gray, false, 8, 1, 1, [73, 109, 48], [2]⟩,
+                ⟨[.dct], .gray, false, 8, 1, 1, [73, 109, 48], [3]⟩] []).map (·.1) =
       [[73, 109, 48, 46, 98, 109, 112], [73, 109, 48, 46, 48, 46, 98, 109, 112], [73, 109, 48, 46, 106, 112, 103]] := by
   decide +kernel
 
 /-! ## Inline image data is captured completely, the rest of the stream is untouched -/
 
-/-- The end-of-line forms a writer puts between the data and `EI`. -/
-def IsEol (sep : Bytes) : Prop := sep = [10] ∨ sep = [13, 10] ∨ sep = [13]
-
-/-- **inline_scan.** For data (with its end-of-line) that does not contain `EI`+white space, the
-    scanner consumes exactly `data EOL EI ws` — the parser continues with `rest`, the operators
-    after the image — and returns `data ++ EOL` with one end-of-line removed. -/
-theorem C18_inline_scan (data sep rest : Bytes) (ws : UInt8) (hsep : IsEol sep) (hws : isSpace ws = true)
-    (hno : NoMarker (data ++ sep)) :
-    getInlineData EI (data ++ sep ++ EI ++ ws :: rest) =
-      some (stripEol (data ++ sep), (data ++ sep).length + 3) := by
-  have hp := scan_prefix (data ++ sep) 0 [] (EI ++ ws :: rest) 0 (by decide)
-    ⟨fun h => absurd h (by decide), fun h => absurd h (by decide)⟩ (by simpa using hno)
-  obtain ⟨hscan, _, hle⟩ := hp
-  -- the state after the end-of-line is 0
-  have hzero : run 0 (data ++ sep) = 0 := by
-    have hlast : ∃ init c, data ++ sep = init ++ [c] ∧ (c = 10 ∨ c = 13) := by
-      rcases hsep with rfl | rfl | rfl
-      · exact ⟨data, 10, rfl, Or.inl rfl⟩
-      · exact ⟨data ++ [13], 10, by simp, Or.inl rfl⟩
-      · exact ⟨data, 13, rfl, Or.inr rfl⟩
-    obtain ⟨init, c, hinit, hc⟩ := hlast
-    have hp2 := scan_prefix init 0 [] [] 0 (by decide)
-      ⟨fun h => absurd h (by decide), fun h => absurd h (by decide)⟩
-      (by
-        intro pre post c' hc' heq
-        apply hno pre (post ++ [c]) c' hc'
-        rw [hinit]
-        simp only [List.nil_append] at heq
-        rw [heq]; simp)
-    rw [hinit, run_snoc] at hle ⊢
-    exact step_eol _ c hp2.2.2 hc hle
-  unfold getInlineData
-  have hinput : data ++ sep ++ EI ++ ws :: rest = (data ++ sep) ++ (EI ++ ws :: rest) := by simp
-  rw [hinput, hscan, hzero]
-  have : EI ++ ws :: rest = 69 :: 73 :: ws :: rest := rfl
-  rw [this, scan_marker ws rest _ hws]
-  simp only [Nat.zero_add, EI_length, Bool.false_eq_true, if_false]
-  have htake : List.take ((data ++ sep).length + 3) (data ++ sep ++ 69 :: 73 :: ws :: rest) =
-      (data ++ sep) ++ [69, 73, ws] := by
-    have : data ++ sep ++ 69 :: 73 :: ws :: rest = ((data ++ sep) ++ [69, 73, ws]) ++ rest := by simp
-    rw [this]
-    have hl : (data ++ sep).length + 3 = ((data ++ sep) ++ [69, 73, ws]).length := by simp <;> omega
-    rw [hl, List.take_left]
-  rw [htake]
-  have : ((data ++ sep) ++ [69, 73, ws]).length - (2 + 1) = (data ++ sep).length := by simp <;> omega
-  rw [this, List.take_left]
+/-- **inline_scan.** For data (with its end-of-line: LF, CR LF or CR) that does not contain
+    `EI`+white space, and for any size hint, the scanner consumes exactly `data EOL EI ws` — the
+    parser continues with `rest`, the operators after the image — and what it returns is determined
+    by `data ++ EOL` alone (`finish`: cut at the hinted size, or strip one end-of-line). -/
+theorem C18_inline_scan (L : Option Nat) (data sep rest : Bytes) (ws : UInt8) (hsep : IsEol sep)
+    (hws : isSpace ws = true) (hno : NoMarker (data ++ sep)) :
+    getInlineDataLen EI L (data ++ sep ++ EI ++ ws :: rest) = finish L (data ++ sep) ((data ++ sep).length + 3) :=
+  getInlineDataLen_marker L data sep rest ws hsep hws hno
 
 /-- The same when `EI` is the last token of the content stream. -/
-theorem C18_inline_scan_eof (data sep : Bytes) (hsep : IsEol sep) (hno : NoMarker (data ++ sep)) :
-    getInlineData EI (data ++ sep ++ EI) = some (stripEol (data ++ sep), (data ++ sep).length + 2) := by
-  have hp := scan_prefix (data ++ sep) 0 [] EI 0 (by decide)
-    ⟨fun h => absurd h (by decide), fun h => absurd h (by decide)⟩ (by simpa using hno)
-  obtain ⟨hscan, _, hle⟩ := hp
-  have hzero : run 0 (data ++ sep) = 0 := by
-    have hlast : ∃ init c, data ++ sep = init ++ [c] ∧ (c = 10 ∨ c = 13) := by
-      rcases hsep with rfl | rfl | rfl
-      · exact ⟨data, 10, rfl, Or.inl rfl⟩
-      · exact ⟨data ++ [13], 10, by simp, Or.inl rfl⟩
-      · exact ⟨data, 13, rfl, Or.inr rfl⟩
-    obtain ⟨init, c, hinit, hc⟩ := hlast
-    have hp2 := scan_prefix init 0 [] [] 0 (by decide)
-      ⟨fun h => absurd h (by decide), fun h => absurd h (by decide)⟩
-      (by
-        intro pre post c' hc' heq
-        apply hno pre (post ++ [c]) c' hc'
-        rw [hinit]
-        simp only [List.nil_append] at heq
-        rw [heq]; simp)
-    rw [hinit, run_snoc] at hle ⊢
-    exact step_eol _ c hp2.2.2 hc hle
-  unfold getInlineData
-  rw [hscan, hzero]
-  have hm : scan EI 0 EI (0 + (data ++ sep).length) = some (0 + (data ++ sep).length + 2, true) :=
-    scan_marker_eof _
-  rw [hm]
-  simp only [Nat.zero_add, if_true, EI_length, Nat.add_zero]
-  have hl : (data ++ sep).length + 2 = ((data ++ sep) ++ EI).length := by simp [EI_length] <;> omega
-  rw [hl, List.take_length]
-  have h2 : ((data ++ sep) ++ EI).length - 2 = (data ++ sep).length := by simp [EI_length] <;> omega
-  rw [h2, List.take_left]
+theorem C18_inline_scan_eof (L : Option Nat) (data sep : Bytes) (hsep : IsEol sep) (hno : NoMarker (data ++ sep)) :
+    getInlineDataLen EI L (data ++ sep ++ EI) = finish L (data ++ sep) ((data ++ sep).length + 2) :=
+  getInlineDataLen_marker_eof L data sep hsep hno
 
-/-- The full statement of the property for inline data. -/
-def C18_inline_capture_statement : Prop :=
+/-- **inline_capture.** When the dictionary tells the size of the data (unfiltered image: the hint
+    is `data.length`), the captured bytes are exactly `data` — whatever its last bytes are, for
+    every end-of-line form — and exactly `data EOL EI ws` is consumed. -/
+theorem C18_inline_capture (data sep rest : Bytes) (ws : UInt8) (hsep : IsEol sep)
+    (hws : isSpace ws = true) (hno : NoMarker (data ++ sep)) :
+    getInlineDataLen EI (some data.length) (data ++ sep ++ EI ++ ws :: rest) =
+      some (data, (data ++ sep).length + 3) := by
+  rw [getInlineDataLen_marker _ data sep rest ws hsep hws hno]
+  exact finish_exact data sep _ hsep
+
+theorem C18_inline_capture_eof (data sep : Bytes) (hsep : IsEol sep) (hno : NoMarker (data ++ sep)) :
+    getInlineDataLen EI (some data.length) (data ++ sep ++ EI) = some (data, (data ++ sep).length + 2) := by
+  rw [getInlineDataLen_marker_eof _ data sep hsep hno]
+  exact finish_exact data sep _ hsep
+
+/-- The full statement for payloads whose size the dictionary does not tell (filtered data). -/
+def C18_inline_capture_nohint_statement : Prop :=
   ∀ (data sep rest : Bytes) (ws : UInt8), IsEol sep → isSpace ws = true → NoMarker (data ++ sep) →
-    getInlineData EI (data ++ sep ++ EI ++ ws :: rest) = some (data, (data ++ sep).length + 3)
+    getInlineDataLen EI none (data ++ sep ++ EI ++ ws :: rest) = some (data, (data ++ sep).length + 3)
 
-/-- **inline_capture (partial).** The captured bytes are exactly `data` and exactly
-    `data EOL EI ws` is consumed — except when the data ends in CR and the writer's end-of-line is
-    a bare LF (open finding `inline-data-trailing-cr`). -/
-theorem C18_inline_capture_partial (data sep rest : Bytes) (ws : UInt8) (hsep : IsEol sep)
+/-- **inline_capture without a size (partial).** The captured bytes are exactly the payload unless
+    it ends in CR and the writer's end-of-line is a bare LF (open finding `inline-data-trailing-cr`,
+    now restricted to filtered payloads). -/
+theorem C18_inline_capture_nohint_partial (data sep rest : Bytes) (ws : UInt8) (hsep : IsEol sep)
     (hws : isSpace ws = true) (hno : NoMarker (data ++ sep))
     (hcr : ¬ (sep = [10] ∧ data.getLast? = some 13)) :
-    getInlineData EI (data ++ sep ++ EI ++ ws :: rest) = some (data, (data ++ sep).length + 3) := by
-  rw [C18_inline_scan data sep rest ws hsep hws hno]
-  congr 2
-  rcases hsep with rfl | rfl | rfl
-  · exact stripEol_lf data (fun h => hcr ⟨rfl, h⟩)
-  · exact stripEol_crlf data
-  · exact stripEol_cr data
+    getInlineDataLen EI none (data ++ sep ++ EI ++ ws :: rest) = some (data, (data ++ sep).length + 3) := by
+  rw [getInlineDataLen_marker _ data sep rest ws hsep hws hno]
+  exact finish_none_strip data sep _ hsep hcr
 
-/-- Counter-example to the full statement (as the pinned and the repaired code behave): data `A CR`
-    written as `A CR LF EI SP` comes back as `A`. -/
-theorem C18_inline_trailing_cr_cex : ¬ C18_inline_capture_statement := by
+/-- Counter-example to the statement without a size: payload `A CR` written as `A CR LF EI SP`
+    comes back as `A`. -/
+theorem C18_inline_trailing_cr_cex : ¬ C18_inline_capture_nohint_statement := by
   intro h
   have := h [65, 13] [10] [] 32 (Or.inl rfl) (by decide)
     (by
@@ -284,10 +257,67 @@ theorem C18_inline_trailing_cr_cex : ¬ C18_inline_capture_statement := by
   revert this
   decide +kernel
 
+/-- Non-vacuity: with the size hint, data ending in CR before a bare LF is captured exactly. -/
+example : getInlineDataLen EI (some 2) ([65, 13] ++ [10] ++ EI ++ 32 :: [81]) = some ([65, 13], 6) := by
+  decide +kernel
+
 /-- Non-vacuity of the hypotheses: binary data containing `E`, `I`, `EI` without white space after
     it, ending in LF, with a CR LF end-of-line. -/
 example : getInlineData EI ([69, 69, 73, 0, 73, 10] ++ [13, 10] ++ EI ++ 32 :: [81]) =
     some ([69, 69, 73, 0, 73, 10], 11) := by
+  decide +kernel
+
+/-! ## The glue around inline images: BI … ID dictionary, do_EI, LTImage, export -/
+
+/-- **inline_image.** A well-formed inline image written with abbreviated or full key names
+    (`BI /W w /H h /BPC b /CS cs ID␣ data EOL EI ws rest`): `do_keyword` pushes a stream whose
+    dictionary has exactly the four entries and whose data is exactly `data` — for every EOL form
+    and whatever the last bytes of the data are — followed by `EI`, having consumed exactly
+    `data EOL EI ws`; `do_EI` accepts it and `LTImage` reports the stored width, height, bits and
+    colour space. -/
+theorem C18_inline_image (abbr : Bool) (k : Kind) (w h : Nat) (data sep rest : Bytes) (ws : UInt8)
+    (hw : 1 ≤ w) (hh : 1 ≤ h) (hlen : data.length = h * rowBytes k w) (hsep : IsEol sep)
+    (hws : isSpace ws = true) (hno : NoMarker (data ++ sep)) :
+    processID (writerObjs abbr k w h) (data ++ sep ++ EI ++ ws :: rest) =
+      .ok ⟨writerDict abbr k w h, data, true, (data ++ sep).length + 3⟩ ∧
+    doEI (writerDict abbr k w h) =
+      some ⟨.int w, .int h, .int (bpcOf k), [some (.name (csNameOf abbr k))], none⟩ := by
+  refine ⟨?_, doEI_writer abbr k w h⟩
+  unfold processID
+  rw [assemble_writer]
+  simp only []
+  rw [eos_writer]
+  simp only []
+  rw [size_writer abbr k w h hw hh, ← hlen, C18_inline_capture data sep rest ws hsep hws hno]
+  rfl
+
+/-- **inline_image_exported.** End to end for inline images: content-stream bytes → pushed
+    stream → LTImage → `export_image` → a new `*.bmp` that the BMP reader decodes to exactly the
+    stored samples. -/
+theorem C18_inline_image_exported (abbr : Bool) (k : Kind) (w h : Nat) (data sep rest name : Bytes) (ws : UInt8)
+    (existing : List Bytes) (hw : 1 ≤ w) (hh : 1 ≤ h) (hfit : FitsBmp k w h)
+    (hlen : data.length = h * rowBytes k w) (hsep : IsEol sep) (hws : isSpace ws = true)
+    (hno : NoMarker (data ++ sep)) :
+    ∃ p f img nm file,
+      processID (writerObjs abbr k w h) (data ++ sep ++ EI ++ ws :: rest) = .ok p ∧
+      p.consumed = (data ++ sep).length + 3 ∧ p.pushEI = true ∧
+      doEI p.dict = some f ∧ toImgIn f [] name p.data = some img ∧
+      exportImage img existing = .ok (nm, file) ∧ nm ∉ existing ∧
+      readBMP file = some (w, h, samplesRGB k w h data) := by
+  obtain ⟨hp, hf⟩ := C18_inline_image abbr k w h data sep rest ws hw hh hlen hsep hws hno
+  obtain ⟨nm, file, hexp, hfresh, _, hread⟩ :=
+    C18_bmp_rt k abbr w h data name existing [] (by intro f hf; cases hf) hw hh hfit hlen
+  refine ⟨_, _, ⟨[], csOfKind k abbr, false, bpcOfKind k, w, h, name, data⟩, nm, file, hp, rfl, rfl, hf, ?_, hexp,
+    hfresh, hread⟩
+  cases abbr <;> cases k <;>
+    simp (config := { decide := true }) only [toImgIn, csNameOf, bpcOf, csOfKind, bpcOfKind, Int.toNat_natCast,
+      Int.natCast_nonneg, and_self, if_true, true_and] <;>
+    rfl
+
+/-- Non-vacuity: a 2×1 gray image whose data is `A CR`, written with a bare LF before `EI`. -/
+example : (match processID (writerObjs true .gray8 2 1) ([65, 13] ++ [10] ++ EI ++ 32 :: [81]) with
+    | .ok p => some (p.data, p.pushEI, p.consumed, inlineSize p.dict)
+    | .error _ => none) = some ([65, 13], true, 6, some 2) := by
   decide +kernel
 
 end PdfVerif.Props.C18
